@@ -15,6 +15,39 @@ BASELINE = "cd /repo && /venv/bin/python -m pytest -ra -q -p no:cacheprovider --
 
 # id -> (technique, level text, level note, design ref)
 CHECKS = {
+    "C01": (
+        "Hypothesis PBT: conservation identity + sign/remainder invariants over generated battery/inverter data, direct and through a real BatteryManager on a fake API",
+        "Generated consistent battery/inverter data sets (1-6 groups, multi-battery/multi-inverter, boundary requests) are "
+        "pushed through distribute_power and through BatteryManager; the oracle is the sum identity and sign rules, not a "
+        "copy of the algorithm. Exploration level: thousands (quick) to ~3*10^5 (thorough) cases, no absence claim.",
+        "Tolerance 1e-6 relative; admitted requests chosen with the documented advertised-bounds aggregation recomputed by "
+        "the harness; status tracker stubbed to 'all working' in manager mode.",
+        "DESIGN.md section 3 C01/C02",
+    ),
+    "C02": (
+        "Hypothesis PBT: per-inverter and per-group bound predicates + zero-headroom rule over the C01 domain",
+        "Same generated domain as C01; oracle = bound predicates recomputed from the input data. One open known finding "
+        "(multi-inverter group whose inverters and batteries both have exclusion bounds) is excluded by an input-class "
+        "predicate and counted. Exploration level.",
+        "Tolerance 1e-6 on the permissive side only; the excluded class is reported in evidence (excluded_by_known_finding).",
+        "DESIGN.md section 3 C01/C02",
+    ),
+    "C03": (
+        "Hypothesis PBT over proposal histories: envelope invariant after every operation + metamorphic history-freedom (fresh instance, all arrival orders)",
+        "Histories of propose/replace/expire/bounds-change operations on a real Matryoshka; after every step the target is "
+        "checked against the usable-bounds envelope and against a fresh instance fed only the live proposals; at the end all "
+        "n! arrival orders are enumerated. Exploration level.",
+        "A single proposal has lower<=upper; at an age of exactly max_proposal_age both readings are accepted.",
+        "DESIGN.md section 3 C03",
+    ),
+    "C04": (
+        "Hypothesis PBT: independent exact-rational interval reference model + report/target relation + null-proposal metamorphic check",
+        "Conflict-free proposal sets built constructively are compared with a closed-interval reference over Fractions; the "
+        "bounds reported to each actor are checked as a relation against what the manager does with that actor's proposal. "
+        "Exploration level.",
+        "Distinct priorities per actor; ties between two equally near admissible values accept both; preference 0 accepts 0.",
+        "DESIGN.md section 3 C04",
+    ),
     "C18": (
         "Hypothesis PBT: exact Fraction reference model + metamorphic relations (range, monotone, scale)",
         "Generated battery sets (metric presence, working subsets, degenerate limits, zero capacity) are compared "
